@@ -38,6 +38,7 @@ def run(rep: Report, tier: str) -> None:
 	rule_f(rep, idx, nm, gm)
 	rule_g(rep, idx, nm)
 	rule_h(rep, idx, nm)
+	rule_this_var_depth(rep, idx)
 
 
 def py_key(tok: str, kind: str) -> str:
@@ -606,3 +607,66 @@ def rule_h(rep: Report, idx: SourceIndex, nm: NodeModel) -> None:
 					r.ok(key, f.where)
 	if n_sites == 0:
 		r.skip('decorator-reads', None, 'no node class reads its decorators')
+
+
+def rule_this_var_depth(rep: Report, idx: SourceIndex) -> None:
+	"""An instance variable is declared by `self.<name> = ...` directly in `__init__`; DeclThisVar is a TERMINAL node — its text is taken as the name and
+	nothing below it is walked. `self.a.b = v`, `self.xs[i].b = v`, `self.f(k).b = v` are attribute / index / call chains on `self.a`, and CPython's
+	tree has an Attribute chain there. The matcher must therefore accept the two-element text `self.<name>` and nothing longer (or shorter). Decided by
+	evaluating the conjuncts of is_decl_this_var that depend on the token text alone, for `self`, `self.a`, `self.a.b`, `self.a.b.c`, `other.a`."""
+	from vlib import dsneval
+	r = rep.rule('C02/this-var-declaration-is-one-attribute-deep', 'the token-text conjuncts of DeclableMatcher.is_decl_this_var hold for `self.a` and fail for `self`, `self.a.b`, `self.a.b.c` and `other.a`', floor=5)
+	pm_ = idx.mod('rogw/tranp/syntax/node/definition/primary.py')
+	f = pm_.func('DeclableMatcher.is_decl_this_var')
+	dsn_cls = idx.mod('rogw/tranp/dsn/dsn.py').cls('DSN')
+	if f is None:
+		r.skip('is_decl_this_var', (pm_.relpath, 1), 'DeclableMatcher.is_decl_this_var vanished')
+		return
+	if dsn_cls is None:
+		r.skip('is_decl_this_var', f.where, 'class DSN vanished')
+		r.floor = 1
+		return
+	via = f.params()[1] if len(f.params()) > 1 else 'via'
+	rets = [n for n in walk_no_nested(f.node) if isinstance(n, ast.Return) and n.value is not None and not (isinstance(n.value, ast.Constant) and n.value.value is False)]
+	if len(rets) != 1:
+		r.skip('is_decl_this_var', f.where, 'is_decl_this_var no longer ends in one conjunction')
+		return
+	expect = {'self': False, 'self.a': True, 'self.a.b': False, 'self.a.b.c': False, 'other.a': False}
+
+	def reads_text(e: ast.AST, depth: int = 0) -> bool:
+		if f'{via}.tokens' in unparse(e):
+			return True
+		if depth > 4:
+			return False
+		for x in ast.walk(e):
+			if isinstance(x, ast.Name) and isinstance(x.ctx, ast.Load):
+				for a in ast.walk(f.node):
+					if isinstance(a, (ast.Assign, ast.AnnAssign)) and a.value is not None and any(isinstance(y, ast.Name) and y.id == x.id for t in (a.targets if isinstance(a, ast.Assign) else [a.target]) for y in ast.walk(t)):
+						if reads_text(a.value, depth + 1):
+							return True
+		return False
+
+	top = rets[0].value
+	conjuncts_ = list(top.values) if isinstance(top, ast.BoolOp) and isinstance(top.op, ast.And) else [top]
+	text_conj = []
+	for c_ in conjuncts_:
+		vals = {t: dsneval.evaluate(f.node, c_, {f'{via}.tokens': t}, dsn_cls) for t in expect}
+		if all(v is dsneval.UNKNOWN for v in vals.values()):
+			if reads_text(c_):
+				r.skip('is_decl_this_var', f.where, f'the conjunct `{unparse(c_)[:60]}` reads the token text in a way this check does not evaluate')
+				r.floor = 1
+				return
+			continue  # a conjunct about the position in the tree
+		if any(v is dsneval.UNKNOWN for v in vals.values()):
+			r.skip('is_decl_this_var', f.where, f'the conjunct `{unparse(c_)[:60]}` is evaluable for some token texts only')
+			r.floor = 1
+			return
+		text_conj.append(vals)
+	if not text_conj:
+		r.skip('reads-the-text', f.where, 'no conjunct of is_decl_this_var reads the token text')
+		r.floor = 1
+		return
+	for text, want in expect.items():
+		got = all(bool(v[text]) for v in text_conj)
+		what = 'accepts' if got else 'rejects'
+		r.check(got == want, f'tokens:{text}', (pm_.relpath, rets[0].lineno), f'is_decl_this_var {what} the assignment target `{text}` in __init__ (as far as its text goes)' + (': a target deeper than `self.<name>` becomes ONE DeclThisVar leaf named `a.b` — the inner attribute / index / call nodes (and the ThisRef) are not in the tree, where CPython has Attribute(Attribute(Name self, a), b); `self.conf.debug = True`, `self.xs[i].b = v` declare variables called `conf.debug`, `xs.i.b`' if got and not want else ': the plain declaration `self.a = ...` is no longer recognised' if want and not got else ''), unparse(rets[0])[:120])
